@@ -103,21 +103,33 @@ Definition add_edges_from (g : graph) (l : list (Z * Z * label)) : graph :=
 Definition copy (g : graph) : graph :=
   add_edges_from (add_nodes_from empty_graph (nodes_data g)) (adj_pairs g).
 
-(* nx.compose(G, H): R.add_nodes_from(G.nodes(data)); R.add_nodes_from(H.nodes(data));
-   R.add_edges_from(G.edges(data)); R.add_edges_from(H.edges(data)) *)
+(* nx.compose(G, H) = compose_all([G, H]): for each graph in turn
+   R.add_nodes_from(G.nodes(data=True)); R.add_edges_from(G.edges(data=True)) *)
 Definition compose (g h : graph) : graph :=
   add_edges_from
-    (add_edges_from (add_nodes_from (add_nodes_from empty_graph (nodes_data g)) (nodes_data h))
-                    (edges g))
+    (add_nodes_from
+       (add_edges_from (add_nodes_from empty_graph (nodes_data g)) (edges g))
+       (nodes_data h))
     (edges h).
 
-(* nx.relabel_nodes(G, mapping, copy=True) for a total mapping given as a function:
-   H.add_nodes_from(mapping.get(n, n) for n in G); H._node.update(...);
-   H.add_edges_from((map u, map v, d.copy()) for (u, v, d) in G.edges(data=True)) *)
+(* H._node.update(...): the attribute dict of an existing node is replaced as a whole *)
+Definition set_attr (g : graph) (n : Z) (a : nattr) : graph :=
+  match alookup n g with
+  | Some (_, ad) => aset n (a, ad) g
+  | None => g
+  end.
+
+(* nx.relabel_nodes(G, mapping, copy=True) with mapping.get(n, n) given as a function:
+   H.add_nodes_from(f n for n in G); H._node.update((f n, d.copy()) for n, d in G.nodes.items());
+   H.add_edges_from((f u, f v, d.copy()) for (u, v, d) in G.edges(data=True)) *)
 Definition relabel (f : Z -> Z) (g : graph) : graph :=
-  add_edges_from
-    (add_nodes_from empty_graph (map (fun '(n, a) => (f n, a)) (nodes_data g)))
-    (map (fun '(u, v, l) => (f u, f v, l)) (edges g)).
+  let h0 := add_nodes_from empty_graph (map (fun '(n, _) => (f n, na_empty)) (nodes_data g)) in
+  let h1 := fold_left (fun acc '(n, a) => set_attr acc (f n) a) (nodes_data g) h0 in
+  add_edges_from h1 (map (fun '(u, v, l) => (f u, f v, l)) (edges g)).
+
+(* mapping given as a dict *)
+Definition relabel_map (m : list (Z * Z)) (g : graph) : graph :=
+  relabel (fun n => match alookup n m with Some x => x | None => n end) g.
 
 (* well-formedness: unique node ids, unique neighbours per adjacency list, every
    neighbour is a node, adjacency symmetric with equal labels *)
